@@ -719,35 +719,63 @@ func r15e(c *core.Ctx) {
 	}
 	addrPar := rl.Params[1]
 	nPar := rl.Params[2]
+	// the two limiter calls sit in AllowN or in helpers of the package it calls (one per limiter is a natural split);
+	// a helper's parameters are read as the arguments AllowN passes
 	var gCall, cCall ssa.CallInstruction
-	for _, call := range core.Calls(rl) {
-		switch core.CallName(call) {
-		case "(*golang.org/x/time/rate.Limiter).AllowN":
-			gCall = call
-		case "(*" + core.ModPath + "/internal/limiter.ClientLimiter).AllowN":
-			cCall = call
+	var gFn, cFn *ssa.Function
+	for _, hf := range helperReach(rl, 1) {
+		if hf.Parent() != nil {
+			continue
+		}
+		for _, call := range core.Calls(hf) {
+			switch core.CallName(call) {
+			case "(*golang.org/x/time/rate.Limiter).AllowN":
+				gCall, gFn = call, hf
+			case "(*" + core.ModPath + "/internal/limiter.ClientLimiter).AllowN":
+				cCall, cFn = call, hf
+			}
 		}
 	}
 	if gCall == nil || cCall == nil {
 		c.Bad("both-limiters", rl.Pos(), rl, "resourceLimiter.AllowN consults the global and the client limiter", "")
 		return
 	}
-	c.Check(core.Strip(cCall.Common().Args[1]) == ssa.Value(addrPar), "client-keyed-by-addr", cCall.Pos(), rl, "the client limiter is charged for the caller-supplied address", core.Describe(cCall.Common().Args[1]))
-	c.Check(cCall.Common().Args[3] == ssa.Value(nPar) && gCall.Common().Args[2] == ssa.Value(nPar), "cost-forwarded", cCall.Pos(), rl, "both limiters are charged the caller's cost n", "")
+	bind := func(hf *ssa.Function, v ssa.Value) ssa.Value {
+		p, ok := core.Strip(v).(*ssa.Parameter)
+		if !ok || hf == rl || p.Parent() != hf {
+			return core.Strip(v)
+		}
+		for _, call := range callsOfFn(rl, hf) {
+			args := core.CallArgs(call)
+			for k, q := range hf.Params {
+				if q == p && k < len(args) {
+					return core.Strip(args[k])
+				}
+			}
+		}
+		return core.Strip(v)
+	}
+	c.Check(bind(cFn, cCall.Common().Args[1]) == ssa.Value(addrPar), "client-keyed-by-addr", cCall.Pos(), cFn, "the client limiter is charged for the caller-supplied address", core.Describe(cCall.Common().Args[1]))
+	c.Check(bind(cFn, cCall.Common().Args[3]) == ssa.Value(nPar) && bind(gFn, gCall.Common().Args[2]) == ssa.Value(nPar), "cost-forwarded", cCall.Pos(), cFn, "both limiters are charged the caller's cost n", "")
 	usesAddr := false
 	for _, a := range gCall.Common().Args {
 		for _, o := range core.Origins(a, core.OriginOpts{}) {
-			if o == ssa.Value(addrPar) {
+			if bind(gFn, o) == ssa.Value(addrPar) {
 				usesAddr = true
 			}
 		}
 	}
-	c.Check(!usesAddr, "global-not-keyed", gCall.Pos(), rl, "the global limiter is independent of the client address", "")
-	// refusal of either returns a non-nil error
-	for _, call := range []ssa.CallInstruction{gCall, cCall} {
+	c.Check(!usesAddr, "global-not-keyed", gCall.Pos(), gFn, "the global limiter is independent of the client address", "")
+	// refusal of either returns a non-nil error — from the function that asks the limiter, and, when that is a helper,
+	// from AllowN itself (which returns the helper's error when it is not nil, or returns the helper's result as is)
+	for _, lc := range []struct {
+		call ssa.CallInstruction
+		fn   *ssa.Function
+	}{{gCall, gFn}, {cCall, cFn}} {
+		call := lc.call
 		v := call.(ssa.Value)
 		okRet := false
-		for _, ret := range returnsOf(rl) {
+		for _, ret := range returnsOf(lc.fn) {
 			for _, cnd := range core.CondsAt(ret.Block()) {
 				if cnd.Cond == v && !cnd.Val && !core.IsNilConst(ret.Results[0]) {
 					okRet = true
@@ -757,7 +785,22 @@ func r15e(c *core.Ctx) {
 				}
 			}
 		}
-		c.Check(okRet, "deny-returns-error:"+shortCallee(call), call.Pos(), rl, "a false AllowN makes resourceLimiter.AllowN return a non-nil error", "")
+		if okRet && lc.fn != rl {
+			okRet = false
+			for _, hc := range callsOfFn(rl, lc.fn) {
+				hv, isVal := hc.(ssa.Value)
+				if !isVal {
+					continue
+				}
+				for _, ret := range returnsOf(rl) {
+					r0 := core.Unspill(ret.Results[0])
+					if r0 == hv && (core.NilAt(hv, ret.Block()) == core.NonNil || core.NilAt(hv, ret.Block()) == core.MaybeNil && core.InstrDominates(hc, ret)) {
+						okRet = true
+					}
+				}
+			}
+		}
+		c.Check(okRet, "deny-returns-error:"+shortCallee(call), call.Pos(), lc.fn, "a false AllowN makes resourceLimiter.AllowN return a non-nil error", "")
 	}
 
 	// ClientLimiter.AllowN: bucket key = mask(addr); bucket charged (now, n) of the caller
